@@ -120,6 +120,34 @@ extern "C" void h_transpose(void)
   }
   REACHABLE("h_transpose");
 }
+#ifndef NK2
+#define NK2 NC
+#endif
+/* C = A * B by the two-pass product (scipy protocol): pass 1 computes the row pointers of C, the caller sizes j_ / x_ to
+   C.p_[rows], pass 2 fills them.  A is NR x NC, B is NC x NK2 (NK2 may exceed NC).  The rows of C come out unsorted by
+   design, so the obligation is agreement with the dense product and consistency of the row pointers, not canonical form. */
+extern "C" void h_matmat(void)
+{
+  field_init(); CSRMatrix A, B, C; any_canonical(A, NR, NC); any_canonical(B, NC, NK2);
+  __CPROVER_assume(A.j_.n <= 2 && B.j_.n <= 3);
+  C.row_ = NR; C.col_ = NK2; C.p_ = uvec(NR + 1, 0);
+  verif_may_throw = false;
+  csr_matmat_pass1(A, B, C);
+  unsigned nnz = C.p_.d[NR];
+  OBL("C25.csr_matmat_pass1.post.row_pointers_monotone", C.p_.d[0] == 0 && C.p_.d[0] <= C.p_.d[1] && C.p_.d[1] <= C.p_.d[NR]);
+  __CPROVER_assume(nnz <= CAP);
+  C.j_ = uvec(nnz); C.x_ = vec_basic(nnz);
+  csr_matmat_pass2(A, B, C);
+  OBL("C25.csr_matmat_pass2.post.fills_at_most_the_reserved_entries", C.p_.d[NR] <= nnz);
+  for (unsigned i = 0; i < NR; i++) for (unsigned k = 0; k < NK2; k++) {
+    fe_t want = 0;
+    for (unsigned m = 0; m < NC; m++) want = T_ADD[want][T_MUL[dense_at(A, i, m)][dense_at(B, m, k)]];
+    fe_t got = 0;
+    for (unsigned q = 0; q < CAP; q++) if (q >= C.p_.d[i] && q < C.p_.d[i + 1] && q < C.j_.n && C.j_.d[q] == k) got = T_ADD[got][FVAL(C.x_.d[q])];
+    OBL("C25.csr_matmat.post.equals_the_dense_product", got == want);
+  }
+  REACHABLE("h_matmat");
+}
 extern "C" void h_conjugate(void)
 {
   field_init(); CSRMatrix M, Cj; any_canonical(M, NR, NC);
